@@ -336,9 +336,36 @@ theorem verify_complete (ch : Chip) (v : Ver) (u : UContainer)
     (hn : u.placed ≠ [])
     (hL : headerLength v u.placed.length (sbLayout v u.cont.sb).length ≤ 65535)
     (hblob : ∀ b, u.cont.sb.blob = some b → BlobWF b u.cont.dek ∧ b.length ≠ 0)
-    (hp : ∀ p ∈ u.placed, PlacedWF ch v u.base p) :
+    (hp : ∀ p ∈ u.placed, PlacedWF ch v u.base p)
+    (hauth : u.cont.srkSet = 0 → u.cont.sb.srk.length = 0 ∧ u.cont.sb.sigSize v = 0) :
     verifyContainer ch v (toVContainer v u) = [] :=
-  verifyContainer_nil ch v u hflags hsw hfuse hn hL hblob hp
+  verifyContainer_nil ch v u hflags hsw hfuse hn hL hblob hp hauth
+
+/-- the SRK set is part of the signed flag word: a container that claims SRK set 'none' but carries an SRK table or a
+    signature is reported (commit 457be4d; before it, flipping bit 1 of the flags byte of an OEM-signed container switched the
+    authenticity check off and the image verified clean) - so the "unsigned" hypothesis of `verify_complete` is necessary -/
+theorem srk_set_none_reported (ch : Chip) (v : Ver) (c : VContainer) (sb : VSigBlock) (hsb : c.sb = some sb)
+    (h0 : getFI c.flags AhabConsts.cFlagsSrkSetOffset AhabConsts.cFlagsSrkSetSize = 0)
+    (hp : sb.srk.present = true ∨ sb.sig.present = true) : "Signature block" ∈ verifyContainer ch v c :=
+  srkSetNone_reported ch v c sb hsb h0 hp
+
+/-- the container flag word of a version-2 configuration: SRK set, used SRK, revoke mask, check-all-signatures (bit 15, commit
+    3d34c9d: it used to be OR-ed into the glitch-detector field) and glitch-detector behaviour are disjoint fields, every getter
+    position returns what was put in -/
+theorem container_flags_fields (s u r g ca : Nat) (hs : s < 4) (hu : u < 4) (hr : r < 16) (hca : ca < 2) (hg : g < 4) :
+    containerFlagsV2 s u r g ca < 2 ^ 32 ∧
+    getF (containerFlagsV2 s u r g ca) AhabConsts.cFlagsSrkSetOffset AhabConsts.cFlagsSrkSetSize = s ∧
+    getF (containerFlagsV2 s u r g ca) AhabConsts.cFlagsUsedSrkIdOffset AhabConsts.cFlagsUsedSrkIdSize = u ∧
+    getF (containerFlagsV2 s u r g ca) AhabConsts.cFlagsSrkRevokeMaskOffset AhabConsts.cFlagsSrkRevokeMaskSize = r ∧
+    getF (containerFlagsV2 s u r g ca) AhabConsts.cFlagsCheckAllSignaturesOffset AhabConsts.cFlagsCheckAllSignaturesSize = ca ∧
+    getF (containerFlagsV2 s u r g ca) AhabConsts.cFlagsGdetEnableOffset AhabConsts.cFlagsGdetEnableSize = g ∧
+    containerFlags s u r g = containerFlagsV2 s u r g 0 := by
+  have A := cflags_arith s u r g ca hs hu hr hca hg
+  rw [containerFlagsV2_val s u r g ca hs hu hr hca]
+  simp only [getF_eq]
+  refine ⟨A.1, A.2.1, A.2.2.1, A.2.2.2.1, A.2.2.2.2.1, A.2.2.2.2.2, ?_⟩
+  unfold containerFlags containerFlagsV2
+  simp
 
 /-- the structural half of `PlacedWF` is what `update_fields` establishes (the other half are the range bounds) -/
 theorem update_establishes (c : CryptoOps) (hc : CryptoLaws c) (img : Image) (us : List UContainer) (h : img.update c = .ok us)
